@@ -671,8 +671,10 @@ let c14 h : string list =
    flush-done / audit event, for the configured duration).  From the Flush() call we walk forward through these
    windows: the first instant at which the loop is free must carry a flush-start. *)
 let c08_flush h : string list =
-  if h.gen <> 2 then [] else begin
+  (* v1 raises no flush events; with a rate limiter the start of a cycle shows as the read of Capacity() *)
+  if h.gen <> 2 && not h.limiter then [] else begin
     let hits = ref [] in
+    let is_cycle w = w = ["flushstart"] || (h.gen = 1 && (match w with "capread" :: _ -> true | _ -> false)) in
     let arr = Array.of_list h.lines in
     let n = Array.length arr in
     let windows = ref [] and pause_from = ref (-1) in
@@ -693,8 +695,8 @@ let c08_flush h : string list =
     Array.iter (fun ln -> match ln.src, ln.w with "D", ["act"; "stop"] -> if !stop_t = max_int then stop_t := ln.t | _ -> ()) arr;
     let fs_after i t = (* a flush-start at time t logged after line i *)
       let r = ref false in
-      for j = i + 1 to n - 1 do if arr.(j).t = t && arr.(j).src = "L" && arr.(j).w = ["flushstart"] then r := true done; !r in
-    let fs_at t = Array.exists (fun ln -> ln.t = t && ln.src = "L" && ln.w = ["flushstart"]) arr in
+      for j = i + 1 to n - 1 do if arr.(j).t = t && arr.(j).src = "L" && is_cycle arr.(j).w then r := true done; !r in
+    let fs_at t = Array.exists (fun ln -> ln.t = t && ln.src = "L" && is_cycle ln.w) arr in
     Array.iteri (fun i ln ->
         match ln.src, ln.w with
         | "D", ["act"; "flush"] when ln.t >= !start_t && ln.t < !stop_t ->
